@@ -241,6 +241,84 @@ def run(facts, out):
     check_enum_numbers(facts, out)
     check_path_tokens(facts, out)
     check_sample_banks(facts, out)
+    check_lossless(facts, out)
+
+
+# K7: values of the key/value, event and colour sections are written as they are stored.  The
+# decoder reads these values back with the same numeric type the field has, so any rounding,
+# truncation, clamping or arithmetic between the field and the text changes what is read back.
+LOSSY_METHODS = {'round', 'floor', 'ceil', 'trunc', 'abs', 'clamp', 'max', 'min', 'rem_euclid', 'signum', 'fract',
+                 'to_lowercase', 'to_uppercase', 'to_ascii_lowercase', 'to_ascii_uppercase', 'trim', 'trim_start',
+                 'trim_end', 'trim_matches', 'replace', 'saturating_sub', 'saturating_add', 'wrapping_add', 'wrapping_sub',
+                 'unsigned_abs', 'div_euclid', 'powi', 'powf', 'sqrt', 'mul_add', 'to_bits', 'round_ties_even',
+                 'truncate', 'chars', 'split', 'to_standardized_path', 'clean_filename'}
+ARITH = {'Add', 'Sub', 'Mul', 'Div', 'Rem', 'Shl', 'Shr', 'BitAnd', 'BitOr', 'BitXor'}
+INT_TYPES = {'i8', 'i16', 'i32', 'i64', 'i128', 'isize', 'u8', 'u16', 'u32', 'u64', 'u128', 'usize'}
+# (writer suffix, description) -> reason, for values that are legitimately computed
+K7_EXCEPTIONS = {}
+
+
+def lossy_ops(e, inits, depth=0, seen=None):
+    """lossy operations in the expression tree of a written value (following single `let`s)"""
+    found = []
+    seen = seen if seen is not None else set()
+
+    def visit(n, anc):
+        k = n.get('k')
+        if k == 'cast':
+            frm = n.get('from', '')
+            to = n.get('ty', '')
+            if frm in ('f32', 'f64') and to in INT_TYPES:
+                found.append(('float-to-int cast `as %s`' % to, n.get('ln')))
+            elif frm == 'f64' and to == 'f32':
+                found.append(('narrowing cast `as f32`', n.get('ln')))
+            elif frm in INT_TYPES and to in INT_TYPES and frm != to and _int_bits(to) < _int_bits(frm):
+                found.append(('narrowing cast `%s as %s`' % (frm, to), n.get('ln')))
+        elif k == 'mcall' and n.get('name') in LOSSY_METHODS:
+            found.append(('`.%s()`' % n['name'], n.get('ln')))
+        elif k == 'binary' and n.get('op') in ARITH:
+            found.append(('arithmetic `%s`' % n['op'], n.get('ln')))
+        elif k == 'local' and depth < 3 and n.get('name') not in seen:
+            its = inits.get(n['name'], [])
+            if len(its) == 1:
+                seen.add(n['name'])
+                found.extend(lossy_ops(its[0], inits, depth + 1, seen))
+    H.walk(e, visit)
+    return found
+
+
+def _int_bits(t):
+    return {'i8': 8, 'u8': 8, 'i16': 16, 'u16': 16, 'i32': 32, 'u32': 32, 'i64': 64, 'u64': 64, 'isize': 64, 'usize': 64,
+            'i128': 128, 'u128': 128}.get(t, 0)
+
+
+def check_lossless(facts, out):
+    writers = [writer_of(facts, sec, w) for sec, (_d, _k, w) in SECTIONS.items()]
+    writers.append(writer_of(facts, 'Events', 'encode::<impl beatmap::Beatmap>::encode_events'))
+    writers.append(writer_of(facts, 'Colours', 'encode::<impl beatmap::Beatmap>::encode_colors'))
+    nvals = 0
+    for writer in writers:
+        if facts.hir.get(writer) is None:
+            continue
+        wbody = facts.body(writer)
+        wfile = wbody.file if wbody else 'src/encode.rs'
+        bad = []
+        for ev in H.flat_write_events(facts, writer):
+            if ev['kind'] != 'fmt':
+                continue
+            inits = H.binding_inits(facts.hir[ev['fn']])
+            for a in ev['args']:
+                nvals += 1
+                for what, ln in lossy_ops(a, inits):
+                    if (writer.rsplit('::', 1)[-1], what) in K7_EXCEPTIONS:
+                        continue
+                    bad.append((what, ln or ev['ln']))
+        ok = not bad
+        out.add('KT-K7', writer, 'values-written-as-stored', '%s:%d' % (wfile, bad[0][1] if bad else (wbody.line if wbody else 0)),
+                ok, '' if ok else ('a value is written through %s: the text no longer carries the stored value, so decoding it '
+                                   'again yields a different value') % ', '.join(sorted({b[0] for b in bad})),
+                {'lossy': [b[0] for b in bad]} if bad else None, ordinal=False)
+    out.anchor('KT', 'written values examined for lossy conversions', nvals >= 40, '%d' % nvals)
 
 
 def check_key_fromstr(facts, out):
